@@ -414,6 +414,7 @@ func buildWorkloads(seed int64, tier string) []*workload {
 	lossy(250, 203, 2, false, 90, 5, nil)
 	lossy(180, 150, 1, true, 70, 4, nil)
 	lossy(120, 100, 0, false, 60, 2, nil) // method < 3: serial main loop, parallel import/analysis
+	lossy(256, 208, 3, false, 75, 4, nil) // exact-tie picture: flat macroblocks (equal analysis alphas, equal mode costs) next to busy ones
 	if thorough {
 		lossy(640, 487, 1, false, 80, 6, nil)
 		lossy(333, 1001, 0, false, 40, 4, func(o *webp.EncoderOptions) { o.Segments = 2; o.Partitions = 2 })
